@@ -20,8 +20,12 @@ def attach(w, prof, props):
         mons.append(core.C06(ctx))
     if props & {"C07", "C18"}:
         mons.append(core.C07C18Script(ctx, props & {"C07", "C18"}))
+    if "C08" in props and w.scenario.get("jobs"):
+        mons.append(core.C08World(ctx))
     if "C09" in props:
         mons.append(core.C09(ctx))
+    if "C10" in props and w.scenario.get("jobs"):
+        mons.append(core.C10World(ctx))
     if "C16" in props:
         mons.append(core.C16(ctx))
     if "C18" in props:
